@@ -278,7 +278,9 @@ func (s *sut) roundTrip(req *http.Request) (*http.Response, error) {
 		return nil, fmt.Errorf("origin: unknown request %q", req.URL)
 	}
 	res := v.(*cfgx.Msg).Response(req)
-	res.ContentLength = 0
+	if !v.(*cfgx.Msg).ResChunked {
+		res.ContentLength = 0
+	}
 	return res, nil
 }
 
@@ -367,7 +369,11 @@ func (s *sut) exchangeProxy(cl *client, msg *cfgx.Msg, stamp func() int64) exRes
 		}
 		fmt.Fprintf(&sb, "Cookie: %s\r\n", strings.Join(cs, "; "))
 	}
-	sb.WriteString("Content-Length: 0\r\n\r\n")
+	if msg.ReqChunked {
+		fmt.Fprintf(&sb, "Transfer-Encoding: chunked\r\n\r\n%x\r\n%s\r\n0\r\n\r\n", len(cfgx.ChunkBody), cfgx.ChunkBody)
+	} else {
+		sb.WriteString("Content-Length: 0\r\n\r\n")
+	}
 	cl.c.SetDeadline(time.Now().Add(60 * time.Second)) // watchdog only: firing is inconclusive
 	out.q0 = stamp()
 	if _, err := io.WriteString(cl.c, sb.String()); err != nil {
@@ -501,6 +507,9 @@ func (a *attributor) attribute(msg string) (attr, string) {
 		if v.Kind == cfgx.KVPingback || !strings.Contains(stripped, cfgx.VTok(v)) {
 			continue
 		}
+		if v.Kind == cfgx.KVHeader && !hasWord(rest, cfgx.VTok(v)) {
+			continue // e.g. "Host:" in a url verifier's message is not the header verifier's name
+		}
 		all = append(all, i)
 		k := side
 		if !cfgx.Supports(v.Kind, k) {
@@ -534,6 +543,15 @@ func (a *attributor) attribute(msg string) (attr, string) {
 		side = 1 - side
 	}
 	return attr{VIdx: cands[0], Side: side, Req: ri}, ""
+}
+
+func hasWord(words []string, w string) bool {
+	for _, x := range words {
+		if x == w {
+			return true
+		}
+	}
+	return false
 }
 
 // tokenPartDiffers reports whether the URL part that carries url verifier v's
@@ -1160,7 +1178,66 @@ type copRec struct {
 	errors []string
 }
 
-func runConc(r *vh.Run, c concCase, race bool) {
+// awaitAll waits until every operation goroutine has returned. The wait is
+// decided by quiescence, never by a deadline: if the goroutines have not
+// finished and every martian goroutine is parked with an unchanged stack and
+// no operation completes any more (vh.Await -> Stuck), a query, reset or
+// exchange will never return - a violation (every failure recorded so far is
+// lost to the caller). Returns false if the run cannot be judged further.
+func awaitAll(r *vh.Run, c interface{}, wg *sync.WaitGroup, progress *int64, what string, detail map[string]interface{}) bool {
+	done := make(chan struct{})
+	go func() { wg.Wait(); close(done) }()
+	finished := func() bool {
+		select {
+		case <-done:
+			return true
+		default:
+			return false
+		}
+	}
+	select {
+	case <-done:
+		return true
+	case <-time.After(100 * time.Millisecond): // fast path only; the verdict comes from Await
+	}
+	out, fp := vh.Await(finished, vh.AwaitOpts{Activity: func() string { return strconv.FormatInt(atomic.LoadInt64(progress), 10) }})
+	switch out {
+	case vh.Happened:
+		return true
+	case vh.Stuck:
+		frames := map[string]bool{}
+		for _, g := range vh.MartianGoroutines() {
+			if !strings.HasPrefix(g.State, "sync.") && !strings.HasPrefix(g.State, "semacquire") {
+				continue
+			}
+			for _, f := range g.Funcs {
+				if strings.HasPrefix(f, vh.MartianPkg) {
+					frames[strings.TrimPrefix(strings.TrimPrefix(f, vh.MartianPkg), "/")] = true
+					break
+				}
+			}
+		}
+		var fs []string
+		for f := range frames {
+			fs = append(fs, f)
+		}
+		sort.Strings(fs)
+		if detail == nil {
+			detail = map[string]interface{}{}
+		}
+		detail["goroutines"] = fp
+		r.ViolationCase(c, "C13:stuck:"+strings.Join(fs, "|"),
+			what+": operations never return - all martian goroutines are parked and nothing completes any more (deadlock); every failure recorded so far is lost to the caller", detail)
+	default:
+		r.SetCase(c)
+		r.Inconclusive("concurrent run neither finished nor became quiescent", fp)
+	}
+	return false
+}
+
+// runConc returns false if the system under test got stuck (the batch ends:
+// further runs would only repeat the wait).
+func runConc(r *vh.Run, c concCase, race bool) bool {
 	rng := r.Rng(c.Stream, c.Idx)
 	o := cfgx.VGenOpts{MaxDepth: 1 + rng.Intn(4), MaxWidth: 3, Scopes: rng.Intn(4) == 0}
 	top := []string{"group", "filter", "verifier", "filter"}[c.Idx%4]
@@ -1177,9 +1254,14 @@ func runConc(r *vh.Run, c concCase, race bool) {
 	s, err := newSUT(wiring, t, proxyMode)
 	if err != nil {
 		r.ViolationCase(c, "C13:config-rejected", "a valid verifier configuration was rejected: "+err.Error(), map[string]interface{}{"config": t.JSON()})
-		return
+		return true
 	}
-	defer s.close()
+	stuck := false
+	defer func() {
+		if !stuck {
+			s.close()
+		}
+	}()
 	a := newAttributor(t)
 	violBefore := r.Violations()
 
@@ -1285,12 +1367,15 @@ func runConc(r *vh.Run, c concCase, race bool) {
 		runtime.Gosched()
 	}
 	atomic.StoreInt32(&started, 1)
-	wg.Wait()
 	r.Eval(1)
+	if !awaitAll(r, c, &wg, &seq, "concurrent traffic, queries and resets", map[string]interface{}{"config_json": t.JSON(), "wiring": wiring}) {
+		stuck = true
+		return false
+	}
 	if e := harnessErr.Load(); e != nil {
 		r.SetCase(c)
 		r.Inconclusive("harness problem in concurrent run", e)
-		return
+		return true
 	}
 
 	// build per-partition histories
@@ -1443,6 +1528,289 @@ func runConc(r *vh.Run, c concCase, race bool) {
 	if c.Idx == 0 {
 		r.Sample(map[string]interface{}{"concurrent_run": map[string]interface{}{"tree": t.Describe(), "goroutines": G, "ops": nops, "overlapping_pairs": overlaps, "partitions": len(parts), "wiring": wiring}})
 	}
+	return true
+}
+
+// ---------------------------------------------------------------------------
+// stress runs: many exchanges racing with queries (and resets)
+
+type stressCase struct {
+	Kind   string `json:"kind"` // "stress"
+	Stream string `json:"stream"`
+	Idx    int    `json:"idx"`
+}
+
+type sQuery struct {
+	t0, t1 int64
+	code   int
+	body   []byte
+}
+
+type sReset struct {
+	t0, t1 int64
+	code   int
+}
+
+type sExch struct {
+	id  int
+	msg *cfgx.Msg
+	res exResult
+}
+
+// runStress drives a few hundred exchanges from several goroutines through
+// the tree while other goroutines query (and, in every second run, reset).
+// Oracle: every operation returns (decided by quiescence); every entry of every
+// query is an unmet evaluation of a non-API exchange whose phase had begun, at
+// most once, and not one that a reset which completed before the query began
+// had to clear; every unmet evaluation completed before the query began is
+// present unless a reset may have cleared it. Returns false if the system got stuck.
+func runStress(r *vh.Run, c stressCase) bool {
+	rng := r.Rng(c.Stream, c.Idx)
+	o := cfgx.VGenOpts{MaxDepth: 2 + rng.Intn(3), MaxWidth: 3, Scopes: rng.Intn(4) == 0, NoPing: true}
+	top := []string{"group", "group", "filter", ""}[c.Idx%4]
+	o.Top = top
+	t := cfgx.GenVTree(rng, o)
+	wiring := wMartian
+	if (c.Idx/2)%2 == 1 {
+		wiring = wBare
+	}
+	withResets := c.Idx%2 == 1
+	s, err := newSUT(wiring, t, false)
+	if err != nil {
+		r.ViolationCase(c, "C13:config-rejected", "a valid verifier configuration was rejected: "+err.Error(), map[string]interface{}{"config": t.JSON()})
+		return true
+	}
+	a := newAttributor(t)
+	T := 3 + rng.Intn(3)
+	N := 60 + rng.Intn(60)
+	Q := 1 + rng.Intn(2)
+	perQ := 12 + rng.Intn(12)
+	nResets := 0
+	if withResets {
+		nResets = 8 + rng.Intn(10)
+	}
+	exch := make([][]sExch, T)
+	id := 0
+	for g := 0; g < T; g++ {
+		for k := 0; k < N; k++ {
+			id++
+			var m *cfgx.Msg
+			if rng.Intn(10) == 0 {
+				m = cfgx.GenAPI(rng, t, id, apiName, "/configure", "GET", false)
+			} else {
+				m = cfgx.GenTraffic(rng, t, id)
+			}
+			a.register(id, m)
+			exch[g] = append(exch[g], sExch{id: id, msg: m})
+		}
+	}
+	total := int64(T * N)
+	var seq, done int64
+	stamp := func() int64 { return atomic.AddInt64(&seq, 1) }
+	queries := make([][]sQuery, Q)
+	var resets []sReset
+	var wg sync.WaitGroup
+	var started int32
+	gate := func() {
+		for atomic.LoadInt32(&started) == 0 {
+			runtime.Gosched()
+		}
+	}
+	var harnessErr atomic.Value
+	for g := 0; g < T; g++ {
+		wg.Add(1)
+		go func(g int) {
+			defer wg.Done()
+			gate()
+			for i := range exch[g] {
+				exch[g][i].res = s.exchangeDirect(exch[g][i].msg, stamp)
+				if e := exch[g][i].res.err; e != nil {
+					harnessErr.Store(e.Error())
+					return
+				}
+				atomic.AddInt64(&done, 1)
+			}
+		}(g)
+	}
+	for q := 0; q < Q; q++ {
+		wg.Add(1)
+		go func(q int) {
+			defer wg.Done()
+			gate()
+			for k := 0; k < perQ; k++ {
+				// issue the k-th pair of queries once k/perQ of the traffic has completed
+				for atomic.LoadInt64(&done) < total*int64(k)/int64(perQ) && harnessErr.Load() == nil {
+					runtime.Gosched()
+				}
+				for j := 0; j < 2; j++ {
+					var rec sQuery
+					rec.t0 = stamp()
+					rec.code, rec.body = s.queryDirect()
+					rec.t1 = stamp()
+					queries[q] = append(queries[q], rec)
+				}
+			}
+		}(q)
+	}
+	if nResets > 0 {
+		wg.Add(1)
+		go func() {
+			defer wg.Done()
+			gate()
+			for k := 0; k < nResets; k++ {
+				for atomic.LoadInt64(&done) < total*int64(k)/int64(nResets) && harnessErr.Load() == nil {
+					runtime.Gosched()
+				}
+				var rec sReset
+				rec.t0 = stamp()
+				rec.code = s.resetDirect()
+				rec.t1 = stamp()
+				resets = append(resets, rec)
+			}
+		}()
+	}
+	atomic.StoreInt32(&started, 1)
+	r.Eval(1)
+	if !awaitAll(r, c, &wg, &seq, "traffic racing with queries and resets", map[string]interface{}{"config_json": t.JSON(), "wiring": wiring, "with_resets": withResets}) {
+		return false
+	}
+	if e := harnessErr.Load(); e != nil {
+		r.SetCase(c)
+		r.Inconclusive("harness problem in stress run", e)
+		return true
+	}
+	// one final query after everything has returned
+	var fin sQuery
+	fin.t0 = stamp()
+	fin.code, fin.body = s.queryDirect()
+	fin.t1 = stamp()
+	all := []sQuery{fin}
+	for q := range queries {
+		all = append(all, queries[q]...)
+	}
+	// what every exchange contributes, with the interval of the phase that records it
+	type ev struct {
+		k      attrKey
+		t0, t1 int64
+	}
+	evs := map[attrKey]ev{}
+	for g := range exch {
+		for _, e := range exch[g] {
+			unmet, _ := evaluations(a, e.msg)
+			for _, k := range unmet {
+				k.Req = e.id
+				t0, t1 := e.res.q0, e.res.q1
+				if k.Side == cfgx.Res {
+					t0, t1 = e.res.s0, e.res.s1
+				}
+				evs[k] = ev{k, t0, t1}
+			}
+		}
+	}
+	for _, rs := range resets {
+		if rs.code != 204 {
+			r.ViolationCase(c, "C13:reset:status", fmt.Sprintf("the reset handler answered %d, want 204", rs.code), nil)
+		}
+	}
+	viol := func(sig, what string, d map[string]interface{}) {
+		d["config_json"], d["wiring"], d["with_resets"] = t.JSON(), wiring, withResets
+		r.ViolationCase(c, sig, what, d)
+	}
+	before := r.Violations()
+	overlapQ := 0
+	entries := 0
+	for _, q := range all {
+		if q.code != 200 {
+			viol("C13:query:status", fmt.Sprintf("the verification handler answered %d", q.code), map[string]interface{}{})
+			continue
+		}
+		msgs, perr := parseErrors(q.body)
+		if perr != nil {
+			viol("C13:query:body", perr.Error(), map[string]interface{}{})
+			continue
+		}
+		got := map[attrKey]int{}
+		for _, m := range msgs {
+			entries++
+			at, problem := a.attribute(m)
+			if problem != "" {
+				sig := "C13:unattributed-error"
+				if at.Req != nil && at.Req.Msg.API {
+					sig = "C13:api-counted:unattributed"
+				}
+				viol(sig, "the query returned an error that no (verifier, request) pair accounts for: "+problem, map[string]interface{}{"message": m})
+				continue
+			}
+			kind := a.vs[at.VIdx].Kind
+			if at.Req == nil {
+				viol("C13:spurious:"+kind, "unexpected request-less entry", map[string]interface{}{"message": m})
+				continue
+			}
+			if at.Req.Msg.API {
+				viol("C13:api-counted:"+kind, "a request addressed to the proxy's own API was counted by a verifier", map[string]interface{}{"message": m})
+				continue
+			}
+			k := attrKey{VIdx: at.VIdx, Side: at.Side, Req: at.Req.ID}
+			e, ok := evs[k]
+			switch {
+			case !ok:
+				viol("C13:spurious:"+kind, "an error is reported for an evaluation that did not happen or was met", map[string]interface{}{"message": m})
+				continue
+			case e.t0 > q.t1:
+				viol("C13:spurious:"+kind, "an error is reported for an exchange that had not begun when the query returned", map[string]interface{}{"message": m})
+				continue
+			}
+			got[k]++
+			if got[k] == 2 {
+				viol("C13:duplicated:"+kind, "an unmet evaluation is reported more often than it happened", map[string]interface{}{"message": m})
+			}
+			for _, rs := range resets {
+				if e.t1 < rs.t0 && rs.t1 < q.t0 {
+					sd := a.sideOf[[2]int{k.VIdx, int(k.Side)}]
+					viol(fmt.Sprintf("C13:reset:%s:%s", k.Side, sd.placement()), "an error recorded before a reset that completed before the query began is still reported",
+						map[string]interface{}{"message": m, "evaluation": []int64{e.t0, e.t1}, "reset": []int64{rs.t0, rs.t1}, "query": []int64{q.t0, q.t1}})
+					break
+				}
+			}
+		}
+		for k, e := range evs {
+			if e.t0 < q.t1 && q.t0 < e.t1 {
+				overlapQ++
+			}
+			if e.t1 >= q.t0 || got[k] > 0 {
+				continue
+			}
+			cleared := false
+			for _, rs := range resets {
+				if rs.t1 > e.t0 && rs.t0 < q.t1 {
+					cleared = true
+					break
+				}
+			}
+			if !cleared {
+				viol(fmt.Sprintf("C13:lost:%s:%s", a.vs[k.VIdx].Kind, k.Side), "a failure recorded before the query began (and not followed by a reset) is missing from the query",
+					map[string]interface{}{"verifier": a.vs[k.VIdx], "request": k.Req, "evaluation": []int64{e.t0, e.t1}, "query": []int64{q.t0, q.t1}})
+			}
+		}
+	}
+	r.Count("stress_exchanges", total)
+	r.Count("stress_queries", int64(len(all)))
+	r.Count("stress_entries_checked", int64(entries))
+	r.Count("stress_query_evaluation_overlaps", int64(overlapQ))
+	if r.Violations() == before {
+		r.Class(fmt.Sprintf("stress|top=%s|w=%s|resets=%v|overlap=%s", cfgx.KindAbbrev(t.Kind), wiring, withResets, bucket(overlapQ)))
+		for g := range exch {
+			for _, e := range exch[g] {
+				for _, pc := range pathClasses(a, e.msg) {
+					r.Class(pc)
+				}
+			}
+		}
+	}
+	if c.Idx == 0 {
+		r.Sample(map[string]interface{}{"stress_run": map[string]interface{}{"tree": t.Describe(), "traffic_goroutines": T, "exchanges": total, "queries": len(all), "resets": len(resets), "query_evaluation_overlaps": overlapQ}})
+	}
+	return true
 }
 
 func bucket(n int) string {
@@ -1475,7 +1843,20 @@ func run(r *vh.Run, batch string) {
 		for i := 0; i < n; i++ {
 			c := concCase{Kind: "conc", Stream: "c13-" + batch, Idx: i}
 			r.Case(c)
-			runConc(r, c, race)
+			if !runConc(r, c, race) {
+				return // stuck: the leaked goroutines stay parked; further runs would only repeat the wait
+			}
+		}
+		ns := r.Pick(8, 40)
+		if race {
+			ns = r.Pick(4, 16)
+		}
+		for i := 0; i < ns; i++ {
+			c := stressCase{Kind: "stress", Stream: "c13-stress-" + batch, Idx: i}
+			r.Case(c)
+			if !runStress(r, c) {
+				return
+			}
 		}
 	}
 }
@@ -1498,7 +1879,17 @@ func replay(r *vh.Run, raw json.RawMessage) {
 		var c concCase
 		json.Unmarshal(raw, &c)
 		for i := 0; i < 20; i++ {
-			runConc(r, c, false)
+			if !runConc(r, c, false) {
+				break
+			}
+		}
+	case "stress":
+		var c stressCase
+		json.Unmarshal(raw, &c)
+		for i := 0; i < 10; i++ {
+			if !runStress(r, c) {
+				break
+			}
 		}
 	default:
 		r.Inconclusive("unknown case kind", k.Kind)
